@@ -157,7 +157,8 @@ def gen_instance(rng, sw=None, thorough=False):
             n2 = rng.randint(257, 320)
             n3 = rng.randint(1, 3) if na == 3 else n2
     if shape == 'boundary':            # real-CBC lane: sizes around 2^k, 10^k
-        n1 = rng.choice([63, 64, 65, 66, 99, 100, 101, 127, 128, 129, 130] +
+        n1 = rng.choice([63, 64, 65, 65, 66, 99, 100, 101, 127, 128, 129,
+                         129, 130] +
                         ([255, 256, 257, 258] if thorough else []))
         n2 = rng.randint(1, 3)
         n3 = rng.randint(1, 2) if na == 3 else n2
@@ -167,6 +168,8 @@ def gen_instance(rng, sw=None, thorough=False):
         n2 = rng.randint(5, 12)
         n3 = rng.randint(2, 6) if na == 3 else n2
     ties1 = sw.get('ties1', rng.choice([0, 0, .3, .7, 1]))
+    if shape == 'long-lists' and rng.random() < 0.6:
+        ties1 = 0                      # ten or more distinct ranks
     ties2 = sw.get('ties2', rng.choice([0, 0, .3, .7, 1]))
     maxlen = min(n2, 5 if shape == 'big' else 3)
     if shape == 'long-lists':
